@@ -61,7 +61,7 @@ def items(tier: str) -> List[Any]:
                 seen.add(s)
                 out.append(("raw", s))
     for focus, mode, s in detspaces.detector_spaces(tier, chains=False):
-        if mode == "shuffle":
+        if mode in ("shuffle", "g1a"):
             continue
         if focus in ("rekey-to", "group-size-check", "can-close-account") and s not in seen:
             seen.add(s)
